@@ -35,10 +35,10 @@ func init() {
 			}
 		}
 		fh.Close()
-		sizes := []int{9, 70000}
+		sizes := []int{9, 70000, -(1 << 20)} // and, for a quarter of the scripts, exactly one storage chunk
 		stride := 3
 		if *tier == "thorough" {
-			sizes = []int{9, 4097, 2*1024*1024 + 5}
+			sizes = []int{9, 4097, 2*1024*1024 + 5, -(1 << 20), -(2 << 20)}
 			stride = 1
 		}
 		runs, viols, err := eng.RunByteStream(finals, *seed, sizes, stride)
